@@ -66,7 +66,7 @@ CHECKS = {
         "level": "model_checking",
         "engine": "E2",
         "technique": "exhaustive enumeration of queue layouts on the real combine functions vs reference; stateless model checking (pre-emption-bounded) of combine vs concurrent appends",
-        "level_text": "Every queue layout of length <= 4 (quick) / 5 (thorough) over a 17-kind task alphabet (2 hooks x HookRun/EnableKubernetesBindings/no-metadata x context group shapes incl. repeated and interleaved groups x monitor ids) is loaded into a real TaskQueue; both the private combine function and its exported twin are called on the head and compared with a reference written from the statement on full context sequences, monitor ids and remaining queue content.",
+        "level_text": "Every queue layout of length <= 4 (quick) / 5 (thorough) over a 17-kind task alphabet (2 hooks x HookRun/EnableKubernetesBindings/no-metadata x context group shapes incl. repeated and interleaved groups x monitor ids) is loaded into a real TaskQueue; both the private combine function and its exported twin are called on the head and compared with a reference written from the statement on full context sequences, monitor ids and remaining queue content. Tasks carry the task-level group; one task shape is a head that took an ungrouped context in during an earlier failed execution.",
         "level_note": "Trusted: the reference in the harness. Part b: a thread appending 1-2 tasks while the real combine function runs on the instrumented queue, all interleavings within 2 (quick) / 3 (thorough) pre-emptions; every context must be either in the combined result or still queued, exactly once, in order. Retries of a combined task are covered by C04.",
         "rule": "all layouts (product enumeration) of tasks from the alphabet; non-trivial = something was merged; distinct = distinct (contexts, monitor ids, remaining queue) outcome",
         "parts": [
@@ -94,8 +94,8 @@ CHECKS = {
     "C11": {
         "level": "model_checking",
         "engine": "E2",
-        "technique": "exhaustive enumeration of add/remove histories on the real schedule manager and of schedule-binding topologies through the real tick-to-task path",
-        "level_text": "Part a: every sequence of Add/Remove of (crontab,id) pairs (2 crontabs x 2 ids, repeats and unknown pairs) up to depth 5 (quick) / 7 (thorough) on the real scheduleManager with the real cron library; after every step the registered set, the number of cron jobs and the messages produced by one injected firing of every job are compared with a reference-count model. Part b: every assignment of up to 2+2 schedule bindings to 2 hooks (shared/distinct crontabs incl. a column-aligned spelling of one, queues, groups, allowFailure, includeSnapshotsFrom, named/unnamed) with enable/disable sequences; one tick of each crontab through the real schedule handler must yield exactly one task per enabled binding with that crontab carrying its attributes.",
+        "technique": "exhaustive enumeration of add/remove histories on the real schedule manager and of schedule-binding topologies through the real tick-to-task path; stateless model checking (pre-emption-bounded) of simultaneous firings against one consumer",
+        "level_text": "Part a: every sequence of Add/Remove of (crontab,id) pairs (2 crontabs x 2 ids, repeats and unknown pairs) up to depth 5 (quick) / 7 (thorough) on the real scheduleManager with the real cron library; after every step the registered set, the number of cron jobs and the messages produced by one injected firing of every job are compared with a reference-count model. Part b: every assignment of up to 2+2 schedule bindings to 2 hooks (shared/distinct crontabs incl. a column-aligned spelling of one, queues, groups, allowFailure, includeSnapshotsFrom, named/unnamed) with enable/disable sequences; one tick of each crontab through the real schedule handler must yield exactly one task per enabled binding with that crontab carrying its attributes. Part c (controlled scheduler, pre-emption bound 2 / 3): 2..4 distinct crontabs fire at the same instant, one thread per job as the cron library does, a fast or slow consumer of the schedule channel - every firing arrives exactly once.",
         "level_note": "Trusted: cron parsing/Entries of robfig/cron (never started; a firing is Job.Run()), reference models in the harnesses. Hook configurations are loaded through the real HookManager.Init with the hook process replaced by an in-process stand-in that answers --config.",
         "rule": "all op sequences / all binding topologies in the stated bounds; non-trivial = contains a Remove / more than one binding; distinct = distinct live set / task list",
         "parts": [
@@ -110,7 +110,7 @@ CHECKS = {
         "level": "model_checking",
         "engine": "E2",
         "technique": "exhaustive enumeration of metric batch histories on the real storage vs reference registry (full Gather() comparison)",
-        "level_text": "Every history of 1-2 (thorough: up to 3) batches of 1-2 (thorough: 3) operation documents from a 21-operation alphabet (ungrouped add/set/observe, grouped add/set/expire, add/set shortcuts, integer and fractional values, label sets of different shape, names reused across groups and outside groups, six invalid variants), sent by two hooks through the real JSON parser and the real SendBatch; (the JSON stream laid out one value per line, several on a line, or spread over lines) after every batch the complete Gather() output of the registry is compared with a reference registry written from the statement; an invalid operation must give an error and leave the registry untouched. Empty label values, the {PREFIX} template in grouped metrics and a non-empty storage prefix are in the alphabet.",
+        "level_text": "Every history of 1-2 (thorough: up to 3) batches of 1-2 (thorough: 3) operation documents from a 21-operation alphabet (ungrouped add/set/observe, grouped add/set/expire, add/set shortcuts, integer and fractional values, label sets of different shape, names reused across groups and outside groups, six invalid variants), sent by two hooks through the real JSON parser and the real SendBatch; (the JSON stream laid out one value per line, several on a line, or spread over lines) after every batch the complete Gather() output of the registry is compared with a reference registry written from the statement; an invalid operation must give an error and leave the registry untouched. Empty label values, the {PREFIX} template in grouped metrics and a non-empty storage prefix are in the alphabet. Batches in which a group's operations are separated by another group's or an ungrouped operation (A, x, A) are included, alone and after a batch that left series behind.",
         "level_note": "Trusted: prometheus client (Gather), the reference registry in the harness. Identical series (same name and labels) reported under two different groups are left out of the space: an exposition cannot hold both and the statement does not say which wins.",
         "rule": "product enumeration of batches from the alphabet x hooks; non-trivial = history of >= 2 batches; distinct = distinct final registry",
         "parts": [
@@ -150,8 +150,8 @@ CHECKS = {
     "C03": {
         "level": "model_checking",
         "engine": "E1",
-        "technique": "stateless model checking of the assembled operator under a controlled scheduler (deviation-bounded DFS), virtual clock",
-        "level_text": "The real ShellOperator.Start() (task queues and their worker loops, queue set, events handler, hook and bindings controllers, schedule manager, kube events manager) runs under the controlled scheduler with a virtual clock; hook processes, informers, HTTP server and cron's goroutine are behind seams. Two hooks with kubernetes and schedule bindings in `main` and `q2`, an environment thread producing 2 ticks and 2 changes per namespace, three variants (no stall, a q2 hook that never returns, a main hook that fails forever). After start-up (run on the default schedule; C06 explores it) ALL schedules with at most 2 (quick) / 3 (thorough) deviations from the deterministic default scheduler (delay bounding: keep the running thread, else lowest thread id; every other choice, pre-emptive or not, costs one) are executed. Oracle per execution: handler intervals of one queue never overlap, the task handed over is the queue's head, every context runs in the queue its binding names, per-binding event order, and the queue that is not stalled executes all its tasks.",
+        "technique": "stateless model checking of the assembled operator and of the queue set alone under a controlled scheduler (deviation-bounded DFS), virtual clock",
+        "level_text": "The real ShellOperator.Start() (task queues and their worker loops, queue set, events handler, hook and bindings controllers, schedule manager, kube events manager) runs under the controlled scheduler with a virtual clock; hook processes, informers, HTTP server and cron's goroutine are behind seams. Two hooks with kubernetes and schedule bindings in `main` and `q2`, an environment thread producing 2 ticks and 2 changes per namespace, three variants (no stall, a q2 hook that never returns, a main hook that fails forever). After start-up (run on the default schedule; C06 explores it) ALL schedules with at most 2 (quick) / 3 (thorough) deviations from the deterministic default scheduler (delay bounding: keep the running thread, else lowest thread id; every other choice, pre-emptive or not, costs one) are executed. Oracle per execution: handler intervals of one queue never overlap, the task handed over is the queue's head, every context runs in the queue its binding names, per-binding event order, and the queue that is not stalled executes all its tasks. Part q (the queue set alone, delay bound 2 / 3): four started queues, the worker of one inside a handler that does not return, one of nine set operations (Remove of the stalled / an idle / an absent queue, NewNamedQueue, Iterate, DoWithLock, GetByName, Stop of the stalled queue) from another thread, a task added the events handler's way and a task whose handler looks its own queue up - both handled while the stalled queue is still stalled.",
         "level_note": "Trusted: scheduler (vrt), hub and process stand-in as environment models, fake cluster. Scheduling points: lock/channel/select/timer operations (locks of every file of the operator's packages) and listed racy fields; sequential consistency. Part oprace is a free-running race-detector pass over the same scenario with real goroutines and real client-go informers: it cross-checks that no unsynchronised access is missing from the list (an unlisted one is reported as a cap, never as a violation) and adds nothing to the counters.",
         "rule": "DFS over thread choices at scheduling points with at most N pre-emptions per stall variant; non-trivial = execution with >= 1 pre-emption; distinct = distinct sequence of (hook, queue, contexts) executions",
         "parts": [
@@ -182,7 +182,7 @@ CHECKS = {
         "level": "model_checking",
         "engine": "E1",
         "technique": "exhaustive enumeration of fault sequences on the assembled operator under the controlled scheduler with virtual time (thorough: plus delay-bounded schedule exploration)",
-        "level_text": "Every fault sequence from {onStartup, Synchronization, Event, Schedule, combined Schedule+Event task} x k in 0..3 consecutive failures x {non-zero exit, malformed metrics, malformed patch, patch that cannot be applied} x the allowFailure values of the bindings involved is run through the real operator (queues, combine, taskHandleHookRun, handleRunHook, metric storage, object patcher on the fake cluster) with a blocker task ahead and a later task behind it, on the virtual clock. Oracle: k+1 attempts with the same contexts (never fewer), each at least the initial delay (5 s virtual) after the failure, nothing else of the queue in between, the later task afterwards; with failure allowed by every binding involved a single attempt; a context of a binding that does not allow failure is never discarded after a failed run; no Event before the successful Synchronization.",
+        "level_text": "Every fault sequence from {onStartup, Synchronization, Event, Schedule, combined Schedule+Event task} x k in 0..3 consecutive failures x {non-zero exit, malformed metrics, malformed patch, patch that cannot be applied} x the allowFailure values of the bindings involved is run through the real operator (queues, combine, taskHandleHookRun, handleRunHook, metric storage, object patcher on the fake cluster) with a blocker task ahead and a later task behind it, on the virtual clock. Oracle: k+1 attempts with the same contexts (never fewer), each at least the initial delay (5 s virtual) after the failure, nothing else of the queue in between, the later task afterwards; with failure allowed by every binding involved a single attempt; a context of a binding that does not allow failure is never discarded after a failed run; no Event before the successful Synchronization. Failure kinds include malformed admission / conversion response files left behind by an ordinary run.",
         "level_note": "Trusted: scheduler and virtual clock, process stand-in (writes the real output files), hub, fake cluster. Quick explores the default schedule of each fault sequence; thorough adds all schedules with one deviation.",
         "rule": "product enumeration of fault sequences; non-trivial = k >= 1; distinct = distinct execution list",
         "parts": [
@@ -207,7 +207,7 @@ CHECKS = {
         "level": "model_checking",
         "engine": "E1",
         "technique": "exhaustive enumeration of arrival patterns x (interval, burst) on the assembled operator with the rate limiter compiled against the virtual clock",
-        "level_text": "golang.org/x/time/rate is compiled (by overlay) against the virtual-time shim, so the limiter's clock reads and timer waits are owned by the scheduler. For (I,B) in {(1s,1),(2s,3),(500ms,2)} and for a hook without settings, every arrival pattern of up to 4 (quick) / 5 (thorough) changes with gaps from {0, I/2, I, 2I} and hook durations {0, I} is run through the real operator (Synchronization run included), also for a hook with three kubernetes bindings (three Synchronization executions back to back) a hook whose bindings use two queues, and a second hook sharing the throttled hook's queue; oracle on the virtual start times of the hook's executions: for all i<j, j-i+1 <= B + ceil((t_j-t_i)/I); a hook without settings in another queue starts when its event arrives; without settings a hook is delayed only by its own previous run. Hook shapes include a hook that also serves an admission binding; intervals of 30 s and 1 m with context deadlines on the virtual clock.",
+        "level_text": "golang.org/x/time/rate is compiled (by overlay) against the virtual-time shim, so the limiter's clock reads and timer waits are owned by the scheduler. For (I,B) in {(1s,1),(2s,3),(500ms,2)} and for a hook without settings, every arrival pattern of up to 4 (quick) / 5 (thorough) changes with gaps from {0, I/2, I, 2I} and hook durations {0, I} is run through the real operator (Synchronization run included), also for a hook with three kubernetes bindings (three Synchronization executions back to back) a hook whose bindings use two queues, and a second hook sharing the throttled hook's queue; oracle on the virtual start times of the hook's executions: for all i<j, j-i+1 <= B + ceil((t_j-t_i)/I); a hook without settings in another queue starts when its event arrives; without settings a hook is delayed only by its own previous run. Hook shapes include a hook that also serves an admission binding; intervals of 30 s and 1 m with context deadlines on the virtual clock. Two cases with 1200 arrivals at one instant (one execution's worth of contexts, however many).",
         "level_note": "Trusted: virtual clock and scheduler; x/time/rate itself is the instrumented real source from the module cache. Default schedule only (the property quantifies over arrival patterns; interleavings of the queue machinery are explored by C03/C17).",
         "rule": "product enumeration of (I,B) x gap sequences x hook duration; non-trivial = >= 2 arrivals; distinct = distinct start-time sequence",
         "parts": [
@@ -234,7 +234,7 @@ CHECKS = {
         "level": "model_checking",
         "engine": "E2",
         "technique": "exhaustive enumeration of (context type, handler subset, binding name, array shape, failing position) on the real bash framework with real bash and jq",
-        "level_text": "Generated hook scripts source the working tree's shell_lib.sh and frameworks/shell/*.sh and define a chosen subset of handler functions that log their name and BINDING_CONTEXT_CURRENT_INDEX and return a scripted status. Enumerated: 13 context types (two without a type field, as configVersion v0 hooks get them; one Synchronization of about 350 KB) x every subset of that type's candidate handler names plus __main__ x binding names {pods, my-binding, 'Monitor pods in cache tier'} with the selected handler succeeding, failing with an explicit status or failing in strict mode (a command in its middle fails); arrays of 2-3 contexts of different types with a failing, strict-failing, missing or stdin-reading handler at each position; --config. Oracle: exactly the first defined candidate (most to least specific, then __main__) is invoked per context with that context's index, the run stops with a non-zero status at the first failing or unserved context and succeeds otherwise. Arrays of 9, 10, 12 and 25 contexts; handlers that leave with exit 0 or switch set +e.",
+        "level_text": "Generated hook scripts source the working tree's shell_lib.sh and frameworks/shell/*.sh and define a chosen subset of handler functions that log their name and BINDING_CONTEXT_CURRENT_INDEX and return a scripted status. Enumerated: 13 context types (two without a type field, as configVersion v0 hooks get them; one Synchronization of about 350 KB) x every subset of that type's candidate handler names plus __main__ x binding names {pods, my-binding, 'Monitor pods in cache tier'} with the selected handler succeeding, failing with an explicit status or failing in strict mode (a command in its middle fails); arrays of 2-3 contexts of different types with a failing, strict-failing, missing or stdin-reading handler at each position; --config. Oracle: exactly the first defined candidate (most to least specific, then __main__) is invoked per context with that context's index, the run stops with a non-zero status at the first failing or unserved context and succeeds otherwise. Arrays of 9, 10, 12 and 25 contexts; handlers that leave with exit 0 or switch set +e. Binding names include characters special to the shell (*, %, [, backslash; thorough: ?, $, quotes, ;, a crontab): for every candidate name the real bash is asked whether such a function can be defined, and the reference expects it to be invoked exactly when it can.",
         "level_note": "Trusted: bash and jq of the image. The candidate lists in the reference are taken from the framework source, which is the only place they are documented.",
         "rule": "product enumeration; non-trivial = more than one handler defined or more than one context; distinct = distinct (invoked handlers, success)",
         "parts": [
@@ -245,7 +245,7 @@ CHECKS = {
         "level": "model_checking",
         "engine": "E2",
         "technique": "exhaustive enumeration of operation-document streams x encodings x initial cluster states on the real parser and patcher vs a reference interpreter",
-        "level_text": "Every stream of 1-2 documents and a spread (thorough: all) of 3-document streams over 11-12 valid operations (Create / CreateIfNotExists / CreateOrUpdate, delete variants, MergePatch / JSONPatch / JQPatch, objects and patches inline and as strings, integer / float / bool fields, ignoreMissingObject) and 9 invalid documents (7 single-fault ones and a stray closing brace / bracket), written as a JSON stream and as a YAML stream, goes through the real ParseOperations and ObjectPatcher.ExecuteOperations on a fake cluster with the object absent or present. Oracle: an invalid document anywhere gives an error and an untouched cluster; otherwise the final cluster equals a reference interpreter applying the operations once each in order, an apply-time error is reported exactly when the reference predicts one, nothing panics, and both encodings decode to deep-equal operation specs (numeric types included). Plus CreateOrUpdate of string-only objects in 4 encodings against 5 existing states: the object ends exactly as the document says. Plus dependent documents: a kind that is served only once its definition exists (5 streams x 2 encodings) - the cluster must end as applying the documents one after another ends; JSONPatch with value-less and copy items.",
+        "level_text": "Every stream of 1-2 documents and a spread (thorough: all) of 3-document streams over 11-12 valid operations (Create / CreateIfNotExists / CreateOrUpdate, delete variants, MergePatch / JSONPatch / JQPatch, objects and patches inline and as strings, integer / float / bool fields, ignoreMissingObject) and 9 invalid documents (7 single-fault ones and a stray closing brace / bracket), written as a JSON stream and as a YAML stream, goes through the real ParseOperations and ObjectPatcher.ExecuteOperations on a fake cluster with the object absent or present. Oracle: an invalid document anywhere gives an error and an untouched cluster; otherwise the final cluster equals a reference interpreter applying the operations once each in order, an apply-time error is reported exactly when the reference predicts one, nothing panics, and both encodings decode to deep-equal operation specs (numeric types included). Plus CreateOrUpdate of string-only objects in 4 encodings against 5 existing states: the object ends exactly as the document says. Plus dependent documents: a kind that is served only once its definition exists (5 streams x 2 encodings) - the cluster must end as applying the documents one after another ends; JSONPatch with value-less and copy items. Plus a kind served by two API groups: all sequences of 2-3 documents over {patch alpha, patch beta, patch bare, delete bare, delete beta} x every split into two streams on one patcher - every document acts on the object it names (what a bare kind addresses is taken from a one-document stream on a fresh patcher).",
         "level_note": "Trusted: the fake dynamic client as cluster, gojq, the reference interpreter. 'Invalid' is limited to the unmistakable faults of docs/src/KUBERNETES.md. Foreground Delete (polls with a real 1 s interval) only in the thorough tier; subresource is not exercised (the fake client ignores it).",
         "rule": "product enumeration of document streams x {absent, present}; non-trivial = more than one document; distinct = distinct (final cluster, error)",
         "parts": [
@@ -256,7 +256,7 @@ CHECKS = {
         "level": "model_checking",
         "engine": "E2",
         "technique": "exhaustive enumeration of (binding set, request path, body, hook outcome) through the real admission handler and operator event handler",
-        "level_text": "The operator's own initValidatingWebhookManager runs (TLS server start behind a no-op seam); requests are served by the real chi router, handler and admission event handler (task creation, taskHandler, Hook.Run with the stand-in process writing the real response file). Enumerated: 3 binding sets over two hooks (validating + mutating, names colliding after URL sanitising) x every registered path, unknown webhook, unknown configuration and malformed paths x {valid review, no request, garbage} x 20 hook outcomes (exit 0/1 x empty, garbage, wrong type, allow, allow+warnings, deny+message, deny, deny+message+warnings, allow+patch, allow+patch+warnings, allow with an object patch that cannot be parsed / applied), with ordinary tasks of both hooks waiting in `main` (a request must leave them alone). Oracle: allowed=true only when the addressed hook ran, exited 0 and wrote a valid allow; UID echoed; warnings, denial message and patch (with patchType JSONPatch iff patch) relayed; the hook and binding that ran registered that path.",
+        "level_text": "The operator's own initValidatingWebhookManager runs (TLS server start behind a no-op seam); requests are served by the real chi router, handler and admission event handler (task creation, taskHandler, Hook.Run with the stand-in process writing the real response file). Enumerated: 3 binding sets over two hooks (validating + mutating, names colliding after URL sanitising) x every registered path, unknown webhook, unknown configuration and malformed paths x {valid review, no request, garbage} x 20 hook outcomes (exit 0/1 x empty, garbage, wrong type, allow, allow+warnings, deny+message, deny, deny+message+warnings, allow+patch, allow+patch+warnings, allow with an object patch that cannot be parsed / applied), with ordinary tasks of both hooks waiting in `main` (a request must leave them alone). Oracle: allowed=true only when the addressed hook ran, exited 0 and wrote a valid allow; UID echoed; warnings, denial message and patch (with patchType JSONPatch iff patch) relayed; the hook and binding that ran registered that path. Binding sets include one validating name declared by two hooks (one of them with a mutating binding too); hooks are told apart by their rules: the request is served by the hook whose rules the manager holds for the path.",
         "level_note": "Trusted: net/http/httptest, chi, the stand-in (it writes the scripted bytes into the real response file, parsing stays real). Registration of webhook configurations in the cluster is outside the property.",
         "rule": "product enumeration; non-trivial = anything but a plain valid allow; distinct = distinct answer",
         "parts": [
@@ -268,7 +268,7 @@ CHECKS = {
         "level": "model_checking",
         "engine": "E2+E1",
         "technique": "exhaustive enumeration of (exit code x contents of the four output files) with real processes; stateless model checking (pre-emption-bounded) of two concurrent executions of one hook",
-        "level_text": "Part a: a real /bin/sh hook, executed by the real executor through the operator's taskHandler, dumps its cwd, the six environment variables, the state of the prepared files and the binding-context file, writes scripted contents and exits with a scripted code: exit in {0,1,2,255, killed by SIGKILL, killed by SIGTERM} x each of metrics / patch / admission / conversion file in {untouched, valid, truncated, wrong type} (1536 cases, 1-3 contexts; the temp directory prepared by the operator's own EnsureTempDirectory, in every fifth case from a relative path). Oracle: cwd = hook directory, context file = the task's contexts, output files exist and are empty, file names never reused, non-zero exit or any malformed output fails the task, valid outputs take effect (object in the fake cluster, metric in the hook registry, responses on the task), temp dir empty afterwards in every case, one execution per task. Part b: two executions of the same hook from two threads with scheduling points at every os.* call of hook.go and inside the stand-in process, all interleavings within 2 (quick) / 3 (thorough) pre-emptions, one variant with a failing first execution: each execution reads back its own response, results are right, temp dir empty at the end.",
+        "level_text": "Part a: a real /bin/sh hook, executed by the real executor through the operator's taskHandler, dumps its cwd, the six environment variables, the state of the prepared files and the binding-context file, writes scripted contents and exits with a scripted code: exit in {0,1,2,255, killed by SIGKILL, killed by SIGTERM} x each of metrics / patch / admission / conversion file in {untouched, valid, truncated, wrong type} (1536 cases, 1-3 contexts; the temp directory prepared by the operator's own EnsureTempDirectory, in every fifth case from a relative path). Oracle: cwd = hook directory, context file = the task's contexts, output files exist and are empty, file names never reused, non-zero exit or any malformed output fails the task, valid outputs take effect (object in the fake cluster, metric in the hook registry, responses on the task), temp dir empty afterwards in every case, one execution per task. Part b: two executions of the same hook from two threads with scheduling points at every os.* call of hook.go and inside the stand-in process, all interleavings within 2 (quick) / 3 (thorough) pre-emptions, one variant with a failing first execution: each execution reads back its own response, results are right, temp dir empty at the end. Every seventh case of part a prints 200 KB to stderr before it exits.",
         "level_note": "Trusted: /bin/sh, the fake cluster, the stand-in process in part b. Failures to create temp files (disk full) are outside the property and not injected.",
         "rule": "product enumeration (part a); DFS over interleavings within the bound (part b); non-trivial = any non-default file content or exit / a pre-emption; distinct = distinct (result, inputs) / results",
         "parts": [
@@ -282,7 +282,7 @@ CHECKS = {
         "level": "model_checking",
         "engine": "E2",
         "technique": "exhaustive enumeration of binding option vectors through the real end-to-end path (informer -> controllers -> UpdateSnapshots -> JSON file read by the hook) vs a reference renderer",
-        "level_text": "For each of 48 option vectors (jqFilter x keepFullObjectsInMemory x includeSnapshotsFrom {none, itself, another binding} x group x snapshots included by the schedule / validating / mutating / conversion bindings) a hook is loaded into the real operator (scheduler-controlled, default schedule, hub and process stand-in) and webhook requests before Start() (bindings not enabled yet), start-up, Added / Modified / Deleted changes (the Deleted notification carrying a final state nobody has seen), a tick, two admission requests and a conversion request are played; every binding context read from the real BINDING_CONTEXT_PATH file (onStartup, Synchronization, Event x3, Group, Schedule, Validating, Mutating, Conversion) is checked against a reference renderer written from docs/src/HOOKS.md: required / forbidden keys per type, filterResult equal to the jq result of that very object, object present iff full objects are kept, snapshots present iff the binding includes snapshots, with exactly the documented keys and every one of them a list; every kind of context must have been delivered. One configVersion v0 scenario: short-form contexts with resourceEvent / resourceNamespace / resourceKind / resourceName of the object concerned, no snapshots. Plus a combined array whose items belong to a kubernetes and a schedule binding with the same name and different includeSnapshotsFrom: every item carries the snapshots of its own binding.",
+        "level_text": "For each of 48 option vectors (jqFilter x keepFullObjectsInMemory x includeSnapshotsFrom {none, itself, another binding} x group x snapshots included by the schedule / validating / mutating / conversion bindings) a hook is loaded into the real operator (scheduler-controlled, default schedule, hub and process stand-in) and webhook requests before Start() (bindings not enabled yet), start-up, Added / Modified / Deleted changes (the Deleted notification carrying a final state nobody has seen), a tick, two admission requests and a conversion request are played; every binding context read from the real BINDING_CONTEXT_PATH file (onStartup, Synchronization, Event x3, Group, Schedule, Validating, Mutating, Conversion) is checked against a reference renderer written from docs/src/HOOKS.md: required / forbidden keys per type, filterResult equal to the jq result of that very object, object present iff full objects are kept, snapshots present iff the binding includes snapshots, with exactly the documented keys and every one of them a list; every kind of context must have been delivered. One configVersion v0 scenario: short-form contexts with resourceEvent / resourceNamespace / resourceKind / resourceName of the object concerned, no snapshots. Plus a combined array whose items belong to a kubernetes and a schedule binding with the same name and different includeSnapshotsFrom: every item carries the snapshots of its own binding. Objects carry metadata.managedFields and the filter reaches into them.",
         "level_note": "Trusted: hub and stand-in, gojq for the reference filterResult, the reference renderer. Snapshot contents are C02's subject; v0 rendering is exercised by C06 (v0 hook in the start-up sets).",
         "rule": "product enumeration of option vectors, one scripted event history each; non-trivial = any non-default option; distinct = distinct option vector",
         "parts": [
